@@ -90,6 +90,18 @@ class Atom:
     ops: tuple = ()
     single: bool = False  # exactly one character long
 
+    def __post_init__(self):
+        w = self.lower_is
+        if w and not self.ops:
+            # a word of known spelling but unknown letter case
+            if self.first == ANYC:
+                object.__setattr__(self, "first", CC.of({w[0], w[0].upper()}))
+            if self.last == ANYC:
+                object.__setattr__(self, "last", CC.of({w[-1], w[-1].upper()}))
+            if not self.excludes:
+                letters = set(w) | set(w.upper())
+                object.__setattr__(self, "excludes", frozenset(c for c in "\"'`()[]{}/#\\% \t\n\r" if c not in letters))
+
     def describe(self) -> str:
         o = "".join("." + (x if isinstance(x, str) else f"{x[0]}{x[1:]!r}") for x in self.ops)
         return f"<{self.name}{o}>"
